@@ -182,7 +182,7 @@ theorem env_strict (a b c d : PyVal) :
   simp [setItem, setKV]
 
 /-- the roles that reach the env, from the own roles and the resolver's outcome -/
-theorem effectiveRoles_eq (cfg : GuardCfg) (req : Request) :
+theorem effectiveRoles_outcome (cfg : GuardCfg) (req : Request) :
     effectiveRoles cfg req =
       (match cfg.resolver with
        | Option.none => .list (ownRoles req.roles)
